@@ -327,7 +327,13 @@ void run_case(vf::Case& c)
     x.desc       = show(x.shape, x.p->rank);
     x.h          = vf::mix(hash_arr(x.shape, x.p->rank, (VF_PLO + k * VF_PSTEP) * 131 + 17), x.group);
     x.nontrivial = x.p->rank > 0;
-    if (vf::want_sample("shape")) { vf::sample("shape", "extents<%s,%s> shape %s group %u", IDXN, x.p->name, x.desc.c_str(), x.group); }
+    {
+        // a few concrete cases per pattern class (skip the degenerate all-zero shapes so the evidence shows real ones)
+        std::string const lab = std::string("ext:") + x.p->cls;
+        if ((x.p->rank == 0 || product(x.shape, x.p->rank) > 1) && vf::want_sample(lab.c_str())) {
+            vf::sample(lab.c_str(), "extents<%s,%s> built for shape %s, operation group %u of 8 (all constructor/conversion forms of that group, extent(r) read back)", IDXN, x.p->name, x.desc.c_str(), x.group);
+        }
+    }
     begin(x, "setup:extents(OtherIndexTypes...):N=rank_dynamic"); // any fault before the first operation's own breadcrumb is the basic constructor's
     dispatch<Run>(k, x);
 }
